@@ -391,13 +391,7 @@ func (p *printer) caseClause(x *ast.CaseClause) {
 		for _, c := range x.Items {
 			p.newline()
 			p.indent()
-			for i, w := range c.Patterns {
-				if i > 0 {
-					p.w.WriteByte('|')
-				}
-				p.word(w)
-			}
-			p.w.WriteByte(')')
+			p.patterns(c)
 			p.compoundList(c.List)
 			p.lv++
 			p.newline()
@@ -413,13 +407,7 @@ func (p *printer) caseClause(x *ast.CaseClause) {
 	} else {
 		for _, c := range x.Items {
 			p.space()
-			for i, w := range c.Patterns {
-				if i > 0 {
-					p.w.WriteByte('|')
-				}
-				p.word(w)
-			}
-			p.w.WriteByte(')')
+			p.patterns(c)
 			if len(c.List) != 0 {
 				if undo := p.trim(c.List[0]); undo != nil {
 					defer undo()
@@ -432,6 +420,23 @@ func (p *printer) caseClause(x *ast.CaseClause) {
 		p.space()
 	}
 	p.w.WriteString("esac")
+}
+
+func (p *printer) patterns(c *ast.CaseItem) {
+	if len(c.Patterns) != 0 && len(c.Patterns[0]) == 1 {
+		if w, ok := c.Patterns[0][0].(*ast.Lit); ok && w.Value == "esac" {
+			// without the parenthesis, it would end the case
+			// conditional construct
+			p.w.WriteByte('(')
+		}
+	}
+	for i, w := range c.Patterns {
+		if i > 0 {
+			p.w.WriteByte('|')
+		}
+		p.word(w)
+	}
+	p.w.WriteByte(')')
 }
 
 func (p *printer) ifClause(x *ast.IfClause) {
